@@ -38,7 +38,8 @@ LEVEL_NOTE = ("Trusted: model/grammar.py, the interposer.  The byzantine "
               "deviations (plus the honest twin) are explored, not pairs.")
 BUDGET = {"quick": 60, "thorough": 1200}
 CHUNK = 8
-PROBES = ["skip", "dup", "swap", "insert", "replace", "reneg_client_hello",
+PROBES = ["skip", "dup", "swap", "insert", "replace", "append",
+          "reneg_client_hello",
           "reneg_hello_request", "second_handshake_call", "victim_client",
           "victim_server", "tls13", "legacy", "early_appdata", "early_ccs",
           "illegal_rejected", "legal_accepted", "wrong_epoch"]
@@ -91,6 +92,14 @@ def make_extra(kind, ver, captured):
         return M.ApplicationData().create(bytearray(b"EARLY-DATA"))
     if kind == "copy":
         return captured
+    if kind == "cert_req":
+        from tlslite.constants import ClientCertificateType
+        cr = M.CertificateRequest(tuple(ver))
+        if tuple(ver) >= (3, 4):
+            return cr.create(context=bytearray(b""),
+                             sig_algs=[(4, 1), (8, 4), (4, 3)])
+        return cr.create([ClientCertificateType.rsa_sign], [],
+                         [(4, 1), (2, 1), (4, 3)])
     if kind == "empty_cert":
         from tlslite.constants import CertificateType
         from tlslite.x509certchain import X509CertChain
@@ -100,11 +109,11 @@ def make_extra(kind, ver, captured):
 
 
 EXTRAS = ["ccs", "hello_request", "key_update", "nst", "finished", "shd",
-          "appdata", "copy", "empty_cert"]
+          "appdata", "copy", "empty_cert", "cert_req"]
 EXTRA_TYPE = {"ccs": G.CCS, "hello_request": G.HELLO_REQUEST,
               "key_update": G.KEY_UPDATE, "nst": G.NST,
               "finished": G.FINISHED, "shd": G.SHD, "appdata": G.APPDATA,
-              "empty_cert": G.CERT}
+              "empty_cert": G.CERT, "cert_req": G.CERT_REQ}
 
 
 def build(seed, sc, chooser, victim, rules):
@@ -180,7 +189,8 @@ def run(job, streams=None):
                          captured, op_gen, ctxfull)
 
     # ---- draw a deviation
-    op = ["skip", "dup", "swap", "insert", "replace"][ch.draw(5, "d.op")]
+    op = ["skip", "dup", "swap", "insert", "replace", "append"][
+        ch.draw(6, "d.op")]
     lo = 1 if pname == "c" else 0
     if op == "swap":
         if nhs - lo < 2:
@@ -188,6 +198,24 @@ def run(job, streams=None):
     i = lo + ch.draw(max(1, nhs - lo - (1 if op == "swap" else 0)), "d.idx")
     extra_kind = None
     extra_t = None
+    if op == "append":
+        # pack a second handshake message into the SAME record as message i
+        # (only handshake messages can share a record)
+        if seq[i] in (G.CCS, G.APPDATA):
+            op = "dup"
+        else:
+            extra_kind = ["key_update", "nst", "finished", "copy",
+                          "hello_request"][ch.draw(5, "d.extra")]
+            if extra_kind == "copy" and i == 0:
+                extra_kind = "key_update"
+            if extra_kind == "copy":
+                extra_obj_idx = ch.draw(i, "d.copy")
+                extra_t = seq[extra_obj_idx]
+                if extra_t in (G.CCS, G.APPDATA):
+                    extra_kind = "key_update"
+            if extra_kind != "copy":
+                extra_t = EXTRA_TYPE[extra_kind]
+                extra_obj_idx = None
     if op in ("insert", "replace"):
         extra_kind = EXTRAS[ch.draw(len(EXTRAS), "d.extra")]
         if extra_kind == "copy" and i == 0:
@@ -213,7 +241,8 @@ def run(job, streams=None):
     # the message whose receipt completes the victim's handshake
     fins = [k for k, t in enumerate(seq) if t == G.FINISHED]
     comp = fins[-1] if fins else len(seq)
-    pre = i < comp or (i == comp and op != "dup")
+    pre = i < comp or (i == comp and (
+        op not in ("dup", "append") or (op == "append" and ver == (3, 4))))
     probes[op] = 1
     if extra_kind == "appdata":
         probes["early_appdata"] = 1
@@ -250,6 +279,10 @@ def run(job, streams=None):
              make_extra(extra_kind, ver, None))
         if op == "insert":
             return [ex, msg]
+        if op == "append":
+            from tlslite.messages import Message
+            return [Message(22, bytearray(msg.write()) +
+                            bytearray(ex.write()))]
         return [ex]
 
     sim, pair, peer, vic, ip, mt = build(seed, sc, ch, victim, [rule])
